@@ -1,6 +1,6 @@
 """C15 — inheritance hierarchies stay consistent across their tables.
 
-correspondence: histories of create / get / read / write / set / select / selectBy / destroy over
+correspondence: histories of create / get / read / write / set / select / selectBy / destroy / deleteMany / deleteBy over
 dynamically declared InheritableSQLObject hierarchies (a fixed three-level one with sibling
 subclasses and a column-less leaf, plus seeded random class trees), every level used as the entry
 point, on in-memory SQLite, against the Lean model driver (`drv_c15`): op answers (allocated id,
@@ -24,31 +24,40 @@ PROP = 'C15'
 META = {
     'extractors': ['inherit'],
     'technique': ('Lean 4 proof (invariant preserved by every operation, induction over histories and over the '
-                  'class tree) + extracted control-flow facts of destroySelf/get/_create + differential '
-                  'correspondence on histories + raw-table oracle'),
+                  'class tree) + extracted control-flow facts of destroySelf / get / _create / deleteMany / deleteBy '
+                  '+ differential correspondence on histories + raw-table oracle'),
     'level_text': ('Theorems C15_*: for every well-formed class tree (any depth, any branching, forests) and every '
-                   'history of create / attribute write / set / destroy through any entry level, the tables satisfy '
-                   'the no-orphan invariant; get through any level returns the unique most-derived class; an inherited '
-                   'attribute has a single store (the declaring ancestor\'s row) seen identically through every level; '
-                   'select / selectBy on a class return exactly the rows of its own table that satisfy the filter '
-                   '(own and inherited columns), as most-derived instances; destroy removes the rows at every level. '
-                   'The hand-written model is compared with the real code on generated histories (ops, tables, views).'),
+                   'history of create / attribute write / set / destroy through any entry level and class-level '
+                   'deleteMany / deleteBy, the tables satisfy the no-orphan invariant (C15_no_orphan_inv); get through '
+                   'any level returns the unique most-derived class or NotFound exactly when that level has no row; an '
+                   'inherited attribute has a single store (the declaring ancestor\'s row) seen identically through '
+                   'every level; select / selectBy on a class return exactly the rows of its own table that satisfy the '
+                   'filter (own and inherited columns), as instances of that class or a subclass; destroy and the bulk '
+                   'deletes remove the rows at every level.  The hand-written model is compared with the real code on '
+                   'generated histories (answers, INSERT/DELETE statement order, tables after every step, views through '
+                   'every level); five control-flow facts are re-read from the source on every run and the theorems '
+                   'are stated over them.'),
     'level_note': ('Trusted: Lean kernel; the extractor vlib/extractors/inherit.py; SQLite (joins, integer comparison, '
                    'AUTOINCREMENT id allocation: modelled, cross-checked by execution); the instance cache and the '
-                   'per-level cached column values are taken as coherent with the rows (properties C04/C05); the '
-                   'sampling correspondence.'),
-    'rule': ('case = (class tree, history of <= 25 ops); distinct = distinct (tree, history); non-trivial = the history '
-             'creates at least one instance of a subclass and uses at least two entry levels'),
+                   'per-level cached column values are taken as coherent with the rows (properties C04/C05; exercised '
+                   'here with a warm cache and with the cache emptied before every step); the sampling correspondence.'),
+    'rule': ('case = (class tree, history of <= 25 ops, warm or cold instance cache); distinct = distinct cases; '
+             'non-trivial = the history creates at least one instance of a subclass and uses at least two entry levels; '
+             'plus a systematic sweep (every class created x every class as entry level x every operation kind) on the '
+             'three-level hierarchy with sibling subclasses'),
     'trusted': ['SQL semantics of the generated joins / integer comparisons / AUTOINCREMENT (SQLite executed, not verified)',
-                'instance cache and cached column values coherent with the rows (C04/C05); model reads the row'],
+                'instance cache and cached column values coherent with the rows (C04/C05); the model reads the row'],
     'modelled': ['SQLite engine', 'id allocation (AUTOINCREMENT high-water mark per root table, kept by the driver)',
                  'InheritableIteration batching / child prefetch is modelled as one get per selected id',
-                 'which table an id comparison is rewritten onto (_patch_id_clause) is not modelled (invisible without orphans)'],
+                 'which table an id comparison is rewritten onto (_patch_id_clause) is not modelled (invisible without orphans)',
+                 'deleteMany / deleteBy are modelled per id (a destroy touches only rows of its own id)'],
     'assumptions': ['only successful operations plus NotFound / AttributeError are modelled; failure atomicity of a child '
                     'INSERT and of a multi-level set() is property C06',
                     'objects are fetched through a class for every operation (public API); destroying the private '
-                    '`_parent` instance directly is outside the property',
-                    'integer columns without NULLs in the filters'],
+                    '`_parent` instance directly or assigning the reserved `childName` column is outside the property',
+                    'integer columns without NULLs in the filters',
+                    'documented limitation, not checked: Sub.select(orderBy="<own column name>") fails because the query '
+                    'runs on the root table (docs/Inheritance.rst)'],
     'exhaustive': False,
 }
 
@@ -183,10 +192,7 @@ def op_line(op):
     if t == 'deletemany':
         return 'bulkdel %d %s' % (op[1], fmt_filter(op[2]))
     if t == 'deleteby':
-        f = ['tt']
-        for a, k, v in op[2]:
-            f = ['and', f, ['attr', a, k, 'eq', v]]
-        return 'bulkdel %d %s' % (op[1], fmt_filter(f))
+        return 'bulkdelby %d' % op[1] + ''.join(' %d:%d:%d' % (a, k, v) for a, k, v in op[2])
     raise ValueError(op)
 
 
@@ -519,6 +525,34 @@ def _oracle_step(shape, op, ans, before, after):
                     bad.append(('destroy-touches-other-tree', 'destroying changed table K%d' % c))
         elif before != after:
             bad.append(('failed-destroy-changed-rows', 'destroy answered %s and changed rows' % ans))
+    elif t in ('deletemany', 'deleteby'):
+        c = op[1]
+        r = root_of(shape, c)
+        gone = set()
+        for i in before[c]:
+            try:
+                if t == 'deletemany':
+                    ok = eval_filter(shape, before, i, op[2])
+                else:
+                    ok = all(before[a][i][1][k] == v for a, k, v in op[2])
+            except KeyError:
+                continue
+            if ok:
+                gone.add(i)
+        if ans == 'ok':
+            for x in range(n):
+                if root_of(shape, x) == r:
+                    want = dict((i, row) for i, row in before[x].items() if i not in gone)
+                    if after[x] != want:
+                        left = sorted(i for i in gone if i in after[x])
+                        kind = 'bulk-delete-leaves-row' if left else 'bulk-delete-changes-other-rows'
+                        bad.append((kind, 'K%d.%s(...): table K%d %s' % (
+                            c, t, x, ('still has rows %r of the deleted ids' % left) if left else
+                            'lost or changed rows that did not match')))
+                elif before[x] != after[x]:
+                    bad.append(('bulk-delete-touches-other-tree', 'K%d.%s changed table K%d' % (c, t, x)))
+        elif before != after:
+            bad.append(('failed-bulk-delete-changed-rows', '%s answered %s and changed rows' % (t, ans)))
     elif t in ('select', 'selectby'):
         if before != after:
             bad.append(('select-changes-rows', 'select changed the tables'))
@@ -769,10 +803,20 @@ def gen_history(rng, shape, nops):
                 ops.append(['get', e, i])
             else:
                 ops.append(['set', e, i, [[a, k, rand_val(rng)] for a, k in attrs]])
-        elif r < 0.80:
+        elif r < 0.78:
             c = rng.randrange(n)
             ops.append(['select', c, gen_filter(rng, shape, c)])
-        elif r < 0.88:
+        elif r < 0.805:
+            c = rng.randrange(n)
+            ops.append(['deletemany', c, gen_filter(rng, shape, c)])
+        elif r < 0.83:
+            c = rng.randrange(n)
+            chain = anc(shape, c)
+            attrs = [(a, k) for a in chain for k in range(shape[a][1])]
+            rng.shuffle(attrs)
+            attrs = attrs[:rng.randint(0, 2)] if rng.random() < 0.85 else []
+            ops.append(['deleteby', c, [[a, k, rand_val(rng)] for a, k in attrs]])
+        elif r < 0.89:
             c = rng.randrange(n)
             chain = anc(shape, c)
             attrs = [(a, k) for a in chain for k in range(shape[a][1])]
@@ -824,6 +868,11 @@ def sweep_cases(shape):
             ops.append(['destroy', e, i])
             ops.append(['select', e, ['tt']])
             ops.append(['get', c, i])
+            if e % 2 == 0:
+                ops.append(['deleteby', e, []])
+            else:
+                ops.append(['deletemany', e, ['id', 'ge', 0]])
+            ops.append(['select', root_of(shape, c), ['tt']])
             ops.append(['destroy', c, ids[c][1]])
             ops.append(['select', root_of(shape, c), ['tt']])
             cases.append((shape, ops, (c + e) % 2 == 1))
@@ -892,7 +941,7 @@ def run(ctx):
         for sh in shapes[1:6]:
             cases += sweep_cases(sh)
     ncorpus = len(cases)
-    ncases = ctx.budget(1500, 18000)
+    ncases = ctx.budget(1200, 15000)
     for k in range(ncases):
         shape = shapes[0] if rng.random() < 0.4 else rng.choice(shapes)
         nops = rng.randint(3, 25)
@@ -909,7 +958,6 @@ def run(ctx):
         results.append((shape, ops, cold, lines, impl, fails, len(all_lines)))
         all_lines.extend(lines)
     outs = ctx.model(all_lines)
-    run_bulk(ctx, ctx.model)
 
     reported = set()
     for idx, (shape, ops, cold, lines, impl, fails, off) in enumerate(results):
@@ -947,71 +995,9 @@ def run(ctx):
                     break
 
 
-# the class-level bulk deletes (`SQLObject.deleteMany` / `deleteBy`, not overridden by
-# InheritableSQLObject): witnesses of C15_bulk_delete_keeps_no_orphan_full_FALSE, replayed on every run
-BULK_WITNESSES = [
-    ('C15:deleteBy-leaves-orphans',
-     {'shape': [list(x) for x in BASE_SHAPE], 'cold': False, 'bulk': True,
-      'ops': [['create', 3, [[0, 0, 1], [3, 0, 0]]], ['deleteby', 3, [[3, 0, 0]]]]}),
-    ('C15:deleteMany-leaves-orphans',
-     {'shape': [list(x) for x in BASE_SHAPE], 'cold': False, 'bulk': True,
-      'ops': [['create', 3, [[0, 0, 1], [3, 0, 0]]], ['deletemany', 0, ['attr', 0, 0, 'eq', 1]]]}),
-    # bulk delete on a class outside any hierarchy position that matters (C15_…_partial does hold there):
-    (None,
-     {'shape': [[None, 1, 1], [None, 1, 1], [1, 1, 1]], 'cold': False, 'bulk': True,
-      'ops': [['create', 0, [[0, 0, 1]]], ['create', 0, [[0, 0, 2]]], ['create', 2, [[1, 0, 1]]],
-              ['deletemany', 0, ['attr', 0, 0, 'eq', 1]], ['deleteby', 0, [[0, 0, 5]]]]}),
-]
-
-
-def run_bulk(ctx, outs_for):
-    for key, case in BULK_WITNESSES:
-        shape = norm_shape(case['shape'])
-        h = hier_for(shape)
-        h.reset()
-        lines = [tree_line(shape)]
-        impl = [None]
-        bad = []
-        for op in case['ops']:
-            ans = run_op(h, op)
-            raw = h.raw()
-            lines += [op_line(op), 'dump']
-            impl += [ans, fmt_dump(raw)]
-            bad = check_invariant(shape, raw)
-        h.conn.cache.clear()
-        ctx.case(('bulk', key), nontrivial=True, kind='bulk-delete witness')
-        if bad:
-            if key is None:
-                ctx.oracle_fail('C15:bulk-delete-on-standalone-class-leaves-orphans', bad[0][1], case)
-            else:
-                ctx.oracle_fail(key, '%s: %s' % (op_line(case['ops'][-1]), bad[0][1]), case)
-        elif key is not None:
-            ctx.note('bulk-delete witness %s no longer leaves an orphan: C15_bulk_delete_keeps_no_orphan_full_FALSE '
-                     'describes code that has changed' % key)
-        outs = outs_for(lines)
-        if outs is not None:
-            for j, line in enumerate(lines):
-                if impl[j] is not None:
-                    ctx.compare('bulk deletes (deleteMany / deleteBy): model = raw SELECT',
-                                {'case': case, 'at': line}, outs[j], impl[j])
-
-
 def replay(case):
     sqlo.setup()
     shape = norm_shape(case['shape'])
-    if case.get('bulk'):
-        h = hier_for(shape)
-        h.reset()
-        text = []
-        bad = []
-        for op in case['ops']:
-            ans = run_op(h, op)
-            raw = h.raw()
-            bad = check_invariant(shape, raw)
-            text.append('%s -> %s\n   %s' % (op_line(op), ans, fmt_dump(raw)))
-        h.conn.cache.clear()
-        text += ['oracle: ' + (', '.join(t for _, t in bad) if bad else 'no orphan')]
-        return not bad, '\n'.join(text)
     lines, impl, fails = run_case(shape, case['ops'], cold=bool(case.get('cold')))
     text = ['history%s:' % (' (cache emptied before every step)' if case.get('cold') else '')] + ['  ' + op_line(o) for o in case['ops']] + ['answers:'] + \
            ['  %s -> %s' % (l, a) for l, a in zip(lines, impl) if a is not None and not l.startswith('views')]
